@@ -323,6 +323,14 @@ impl Check for C20 {
         if index % 150 == 7 {
             return generate_pty(&mut rng);
         }
+        if index % 300 == 82 {
+            // The program itself reads keys from the real terminal, between debugger prompts
+            return J::obj()
+                .set("history", J::Arr(vec![]))
+                .set("keys", J::Arr(vec![]))
+                .set("pty_program_input", rng.pick(&["é", "😀", "ü", "a", "Z", "→"]).to_string())
+                .set("pty_minimal", rng.chance(2, 3));
+        }
         let history = *rng.pick(&HISTORIES);
         let n = 1 + rng.usize_below(40);
         let mut keys: Vec<Key2> = (0..n).map(|_| random_key(&mut rng)).collect();
@@ -563,6 +571,9 @@ impl Check for C20 {
         if v.is_empty() && scenario.get_bool("pty").unwrap_or(false) {
             phase4(&history, &keys, scenario, &mut report, &mut v);
         }
+        if let Some(first) = scenario.get_str("pty_program_input") {
+            phase5(first, scenario.get_bool("pty_minimal").unwrap_or(true), &mut report, &mut v);
+        }
 
         report.nontrivial = keys.len() >= 2;
         sig.extend_from_slice(&(history.len() as u32).to_le_bytes());
@@ -797,6 +808,25 @@ fn generate_pty(rng: &mut Rng) -> J {
     // Window width (0: the terminal reports no size) and typing ahead
     scenario.put("pty_cols", *rng.pick(&[0i64, 12, 20, 40, 80, 200]));
     scenario.put("pty_burst", format!("{:x}", if rng.coin() { rng.next_u64() } else { 0 }));
+    // The environment of the session: the cache directory may be missing or impossible, the
+    // history file may refuse to grow
+    match rng.below(8) {
+        0 => {
+            scenario.put("pty_cache_dir", "missing");
+        }
+        1 => {
+            scenario.put("pty_cache_dir", "under_file");
+        }
+        2 | 3 => {
+            scenario.put("pty_fsize_slack", rng.below(24) as i64);
+        }
+        _ => {}
+    }
+    if scenario.get_str("pty_cache_dir").is_some() {
+        // No cache directory, no history file: the session starts from the empty history
+        scenario.put("history", J::Arr(vec![]));
+        scenario.put("pty_history_file", false);
+    }
     scenario
 }
 
@@ -805,7 +835,7 @@ fn generate_pty(rng: &mut Rng) -> J {
 /// history file are the real ones.
 fn phase4(history: &[String], keys: &[Key2], scenario: &J, report: &mut Report, v: &mut Vec<Violation>) {
     use crate::world_b::Scratch;
-    use crate::world_pty::{key_bytes, redraws, run_pty, Chunk};
+    use crate::world_pty::{key_bytes, redraws, Chunk};
     // Keys of the scenario, then a fresh line holding `exit`
     let mut all: Vec<Key2> = keys.to_vec();
     for _ in 0..history.len() + 8 {
@@ -848,6 +878,8 @@ fn phase4(history: &[String], keys: &[Key2], scenario: &J, report: &mut Report, 
                 bytes: std::mem::take(&mut bytes),
                 submits: submitted.is_some(),
                 with_next: burst >> (k % 60) & 1 == 1,
+                program_keys: Vec::new(),
+                redraws_after: 0,
             });
         }
         if let Some(line) = submitted {
@@ -886,6 +918,19 @@ fn phase4(history: &[String], keys: &[Key2], scenario: &J, report: &mut Report, 
     if cols > 0 && cols < 40 {
         report.hit("fault:narrow_terminal_window");
     }
+    let env = crate::world_pty::PtyEnv {
+        cache_dir: scenario.get_str("pty_cache_dir").unwrap_or("").to_string(),
+        fsize_limit: scenario.get_int("pty_fsize_slack").filter(|_| with_file).map(|slack| before.len() as u64 + slack as u64),
+    };
+    if !env.cache_dir.is_empty() {
+        report.hit(&format!("fault:cache_directory_{}", env.cache_dir));
+    }
+    if env.fsize_limit.is_some() {
+        report.hit("fault:history_file_cannot_grow");
+    }
+    let run_pty = |scratch: &Scratch, asm: &std::path::Path, minimal: bool, cols: u16, before: Option<&[u8]>, chunks: &[Chunk]| {
+        crate::world_pty::run_pty_in(scratch, asm, minimal, cols, before, chunks, &env)
+    };
     let mut run = run_pty(&scratch, &asm, minimal, cols, if with_file { Some(&before) } else { None }, &chunks);
     if run.stalled.is_some() {
         // A stall is only a verdict if it repeats: the guard is the one place where the load of
@@ -945,6 +990,18 @@ fn phase4(history: &[String], keys: &[Key2], scenario: &J, report: &mut Report, 
         want.extend_from_slice(line.as_bytes());
         want.push(b'\n');
     }
+    if env.fsize_limit.is_some() {
+        // Appends beyond the limit fail (and may be cut short): the file is not judged, what
+        // the editor remembered is (the redraws above)
+        return;
+    }
+    if !env.cache_dir.is_empty() {
+        // No directory: the editor says so and works without a file
+        if run.history_after.is_some() {
+            v.push(Violation::new(ID, "C20/pty/history-file".to_string(), "a history file appeared although the cache directory does not exist".to_string()));
+        }
+        return;
+    }
     if run.history_after.as_deref() != Some(&want[..]) {
         v.push(Violation::new(
             ID,
@@ -954,6 +1011,108 @@ fn phase4(history: &[String], keys: &[Key2], scenario: &J, report: &mut Report, 
                 run.history_after.as_ref().map(|b| String::from_utf8_lossy(b).into_owned()),
                 String::from_utf8_lossy(&want)
             ),
+        ));
+    }
+}
+
+/// A program that reads three keys (GETC, OUT each time) is stepped through on a real
+/// pseudo-terminal: between two prompts of the line editor the program itself switches the
+/// terminal to raw mode and back for every key it reads. A multi-byte character typed at the
+/// first GETC serves the following ones too (one marker per byte, as on piped input).
+fn phase5(first: &str, minimal: bool, report: &mut Report, v: &mut Vec<Violation>) {
+    use crate::world_b::Scratch;
+    use crate::world_pty::{redraws, run_pty, Chunk};
+    let scratch = Scratch::new("c20in");
+    let asm = scratch.path("p.asm");
+    if std::fs::write(&asm, "    getc\n    out\n    getc\n    out\n    getc\n    out\n    halt\n").is_err() {
+        return;
+    }
+    // Which keys the three GETCs need, and what OUT prints for each
+    let mut keys: Vec<char> = vec![first.chars().next().unwrap_or('a'), 'k', 'Q'];
+    keys.reverse();
+    let mut buffered = 0usize;
+    let mut chunks: Vec<Chunk> = Vec::new();
+    let mut expected_out: Vec<u8> = Vec::new();
+    for line in 0..3usize {
+        let mut program_keys = Vec::new();
+        let shown: char = if buffered > 0 {
+            buffered -= 1;
+            '\u{fd}'
+        } else {
+            let key = keys.pop().unwrap_or('x');
+            let mut buf = [0u8; 4];
+            program_keys.push(key.encode_utf8(&mut buf).as_bytes().to_vec());
+            if key.is_ascii() {
+                key
+            } else {
+                buffered = key.len_utf8() - 1;
+                // U+FFFD in R0, OUT prints its low byte
+                '\u{fd}'
+            }
+        };
+        expected_out.push(b'\n');
+        let mut buf = [0u8; 4];
+        expected_out.extend_from_slice(shown.encode_utf8(&mut buf).as_bytes());
+        chunks.push(Chunk {
+            bytes: b"si 2\r".to_vec(),
+            submits: true,
+            with_next: false,
+            program_keys,
+            redraws_after: 5 * (line + 1) + 1,
+        });
+    }
+    expected_out.push(b'\n');
+    chunks.push(Chunk {
+        bytes: b"exit\r".to_vec(),
+        submits: true,
+        with_next: false,
+        program_keys: Vec::new(),
+        redraws_after: 0,
+    });
+    let mut run = run_pty(&scratch, &asm, minimal, 80, None, &chunks);
+    if run.stalled.is_some() {
+        report.hit("probe:pty_session_repeated_after_stall");
+        run = run_pty(&scratch, &asm, minimal, 80, None, &chunks);
+    }
+    report.hit("fault:program_input_typed_on_a_real_terminal");
+    report.count("processes", 1);
+    if run.spawn_error.is_some() {
+        return;
+    }
+    let after_marker = |out: &[u8]| -> Vec<u8> {
+        let marker = b"Running emitted binary\n";
+        out.windows(marker.len()).position(|w| w == marker).map(|at| out[at + marker.len()..].to_vec()).unwrap_or_default()
+    };
+    if let Some(what) = &run.stalled {
+        v.push(Violation::new(
+            ID,
+            "C20/pty-input/stalled".to_string(),
+            format!("program input typed on the pseudo-terminal (first key {:?}): no reaction while waiting for {}", first, what),
+        ));
+    } else if run.status != Some(0) {
+        let text = String::from_utf8_lossy(&run.tty);
+        let panic = text.find("panicked at").map(|at| text[at..].chars().take(200).collect::<String>());
+        v.push(Violation::new(
+            ID,
+            format!("C20/pty-input/status={:?}{}", run.status, if panic.is_some() { "/panic" } else { "" }),
+            format!("program input typed on the pseudo-terminal (first key {:?}): session ended with {:?} {}", first, run.status, panic.unwrap_or_default()),
+        ));
+    } else if !after_marker(&run.stdout).starts_with(&expected_out) {
+        v.push(Violation::new(
+            ID,
+            "C20/pty-input/output".to_string(),
+            format!(
+                "program input typed on the pseudo-terminal (first key {:?}): output {:?}, expected to start with {:?}",
+                first,
+                String::from_utf8_lossy(&after_marker(&run.stdout)),
+                String::from_utf8_lossy(&expected_out)
+            ),
+        ));
+    } else if redraws(&run.tty).len() < 20 {
+        v.push(Violation::new(
+            ID,
+            "C20/pty-input/redraws".to_string(),
+            format!("only {} prompt redraws for 20 typed keys", redraws(&run.tty).len()),
         ));
     }
 }
